@@ -412,6 +412,10 @@ class Coordinator(object):
             self.stop(errback_result=result)
             return
 
+        if self._stopping:
+            # stop() is in progress (or done): never schedule another join
+            return
+
         self._state = "[rejoin_needed]"
         self._rejoin_needed = True
         if not self._rejoin_wait_dc:
